@@ -59,6 +59,8 @@ where
     ) -> Result<(), GrevmError<DB::Error>> {
         let txid = self.scheduler_ctx.committed_idx().min(self.block_size.saturating_sub(1));
         // This flag only elects the single execution caller and never publishes scheduler data.
+        #[cfg(feature = "verif")]
+        crate::verif::point(crate::verif::pt::STARTED_CAS, 0);
         self.started.compare_exchange(false, true, Ordering::Relaxed, Ordering::Relaxed).map_err(
             |_| GrevmError {
                 txid,
@@ -129,6 +131,10 @@ where
     pub(super) fn abort(&self, abort_reason: AbortReason<DB::Error>) {
         // Preserve the first abort cause. Publish it before the release-store so acquire readers
         // that observe `abort` can also observe the reason.
+        #[cfg(feature = "verif")]
+        crate::verif::event(match &abort_reason { AbortReason::FatalEvmError(txid) => crate::verif::Event::Abort { kind: 0, txid: *txid }, AbortReason::CommitError(error) => crate::verif::Event::Abort { kind: 1, txid: error.txid }, AbortReason::ParallelError { txid, .. } => crate::verif::Event::Abort { kind: 2, txid: *txid }, AbortReason::FallbackSequential => crate::verif::Event::Abort { kind: 3, txid: self.scheduler_ctx.committed_idx() } });
+        #[cfg(feature = "verif")]
+        crate::verif::point(crate::verif::pt::ABORT_REASON, 0);
         self.abort_reason.get_or_init(|| abort_reason);
         self.cancel();
     }
@@ -138,6 +144,8 @@ where
     /// This is used while unwinding a panic: peers must leave their wait loops, but the panic—not
     /// [`AbortReason`]—remains the authoritative failure signal.
     pub(super) fn cancel(&self) {
+        #[cfg(feature = "verif")]
+        crate::verif::point(crate::verif::pt::ABORT_STORE, 0);
         self.abort.store(true, Ordering::Release);
         self.finality_wait.notify();
         self.commit_wait.notify();
